@@ -141,7 +141,7 @@ class _JobBehaviour:
                 await rec.loop.create_future()
             elif d == 'tick':
                 while True:
-                    await asyncio.sleep(1)
+                    await asyncio.sleep(sp.get('tickp', 1))
             elif d > 0:
                 await asyncio.sleep(d)
             for _ in range(sp['k']):
@@ -158,8 +158,11 @@ class _JobBehaviour:
                 rec.ev('exit', who, how='cancelled')
             raise
         if sp['outcome'] == 'raise':
-            exc = EXC_CLASSES[sp.get('exc', 'VExc')](who)
+            exc = EXC_CLASSES[sp.get('exc', 'VExc')](sp.get('excmsg', who))
             rec.name(exc, 'X:' + who)
+            if sp.get('late_critical'):
+                # e.g. a job that decides its failure is fatal just before raising
+                self.critical = True
             rec.ev('exit', who, how='raise', obj=rec.tok(exc))
             raise exc
         kind = sp.get('ret', 'sentinel')
@@ -205,7 +208,7 @@ class VJob(_JobBehaviour, AbstractJob):
             _late_attrs(self, spec)
         else:
             AbstractJob.__init__(self, label=spec.get('label', spec['id']),
-                                 critical=spec['critical'], forever=spec['forever'])
+                                 critical=_ctor_critical(spec), forever=spec['forever'])
 
     async def co_run(self):
         return await self._v_body()
@@ -228,7 +231,7 @@ class VCoJob(_JobBehaviour, Job):
         else:
             Job.__init__(self, self._v_corun, coshutdown=self._v_cosd,
                          label=spec.get('label', spec['id']),
-                         critical=spec['critical'], forever=spec['forever'])
+                         critical=_ctor_critical(spec), forever=spec['forever'])
 
     async def co_shutdown(self):
         # a coroutine object can be awaited once only: a second co_shutdown() on the same
@@ -263,12 +266,17 @@ class _SchedBehaviour:
         except BaseException as exc:                    # pragma: no cover
             return dict(fto=None, fc=None, why='EXC:' + type(exc).__name__)
 
-    async def co_run(self):
+    def co_run(self):
+        # the library's co_run() is CALLED when ours is called (as a user's `s.co_run()`
+        # would) and awaited later: what it does at call time must not matter
+        return self._v_run(super().co_run())
+
+    async def _v_run(self, inner):
         rec = REC
         who = self.v_id
         rec.ev('run-begin', who)
         try:
-            value = await super().co_run()
+            value = await inner
         except asyncio.CancelledError:
             rec.ev('run-exit', who, how='cancelled')
             raise
@@ -316,6 +324,10 @@ def _sched_kwargs(spec):
                 shutdown_timeout=spec['sdt'], verbose=spec['verbose'])
 
 
+def _ctor_critical(spec):
+    return False if spec.get('late_critical') else spec['critical']
+
+
 def _late_attrs(obj, spec):
     """jobs_window, timeout, shutdown_timeout, verbose (and the flags of a job) are plain
     attributes that may be assigned after construction (CHANGELOG 0.5: 'attributes of the
@@ -330,7 +342,7 @@ def _late_attrs(obj, spec):
         if spec.get('watch'):
             obj.watch = _watch()
     if hasattr(obj, 'critical'):
-        obj.critical = spec['critical']
+        obj.critical = _ctor_critical(spec) if spec['kind'] == 'job' else spec['critical']
         obj.forever = spec['forever']
 
 
@@ -465,7 +477,12 @@ def build(spec, registry, top=True, prelude=None):
             # the re-wiring happens between the first run and the judged one
             registry['__rewire__'] = prelude
         else:
+            if spec.get('entry') == 'co_run-called-early':
+                # `coro = s.co_run()` obtained before the graph gets its final shape
+                registry['__coro__'] = sched.co_run()
             rewire(prelude)
+    elif top and spec.get('entry') == 'co_run-called-early':
+        registry['__coro__'] = sched.co_run()
     return sched
 
 
@@ -550,6 +567,7 @@ def run_scenario(spec, sampling=False, run_on=True, explicit_shutdown=False,
         with contextlib.redirect_stdout(out):
             top = build(spec, registry)
         pending_rewire = registry.pop('__rewire__', None)
+        early_coro = registry.pop('__coro__', None)
         rec.objs = registry
 
         def on_created(task):
@@ -656,6 +674,9 @@ def run_scenario(spec, sampling=False, run_on=True, explicit_shutdown=False,
                     # e.g. after the program has used asyncio.run(): run() must make do
                     asyncio.set_event_loop(None)
                     value = top.run()
+                elif entry == 'co_run-called-early' and early_coro is not None \
+                        and not getattr(trace, 'rerun', False):
+                    value = loop.run_until_complete(early_coro)
                 elif entry == 'orchestrate':
                     value = top.orchestrate()
                 elif entry == 'co_run':
